@@ -112,6 +112,57 @@ def orchestration(S):
     S.static_vc("orchestration", "hypnotoad.core.mesh:Mesh.calculateRZ", "calculateRZ: all regions filled, then all boundary rows copied, then all penalty masks", log == want, detail=repr(log)[:600], kind="native", model=dict(log=log) if log != want else None)
 
 
+def copy_faithful(S):
+    """EquilibriumRegion.copy / newRegionFromPsiContour (each MeshRegion works on a private copy,
+    and every regrid makes new ones): the copy carries every structural attribute of the original
+    -- from the contour for positions / indices, from the region for everything else -- and shares
+    no mutable container with it."""
+    import numpy as np
+
+    from .C10_bounded import make_region
+
+    r = make_region(kind="wall.X")
+    r.xPointsAtStart, r.xPointsAtEnd = [None, None], [None, ("X", 1.0)]
+    r.wallSurfaceAtStart, r.wallSurfaceAtEnd = [0.0, 1.0], None
+    r.connections = [dict(lower=None, upper=("core", 0), inner=None, outer=None)]
+    r.psi_vals = [np.array([1.0, 2.0, 3.0])]
+    r.separatrix_radial_index = 1
+    r.startInd, r.endInd, r.extend_lower, r.extend_upper = 1, len(r) - 2, 2, 0
+    attrs = ["name", "nSegments", "nx", "ny_noguards", "kind", "ny_total", "psival", "xPointsAtStart", "xPointsAtEnd", "wallSurfaceAtStart", "wallSurfaceAtEnd", "connections", "separatrix_radial_index", "Rrange", "Zrange"]
+
+    def same(a, b):
+        if isinstance(a, np.ndarray) or isinstance(b, np.ndarray):
+            return np.array_equal(a, b)
+        if isinstance(a, (list, tuple)) and isinstance(b, (list, tuple)):
+            return len(a) == len(b) and all(same(x, y) for x, y in zip(a, b))
+        if isinstance(a, dict) and isinstance(b, dict):
+            return a.keys() == b.keys() and all(same(a[k], b[k]) for k in a)
+        return a == b
+
+    bad = []
+    contour = r.newContourFromSelf()
+    contour.startInd, contour.endInd, contour.extend_lower, contour.extend_upper = 2, len(contour) - 1, 4, 0
+    for what, c, src in (("copy", r.copy(), r), ("newRegionFromPsiContour", r.newRegionFromPsiContour(contour), contour)):
+        for a in attrs:
+            if not hasattr(c, a) or not same(getattr(c, a), getattr(r, a)):
+                bad.append(dict(method=what, attribute=a, original=repr(getattr(r, a, None))[:60], copy=repr(getattr(c, a, "missing"))[:60]))
+        if not (same(dict(c.user_options), dict(r.user_options)) and same(dict(c.nonorthogonal_options), dict(r.nonorthogonal_options))):
+            bad.append(dict(method=what, attribute="options"))
+        if not same([np.array(x) for x in c.psi_vals], [np.array(x) for x in r.psi_vals]):
+            bad.append(dict(method=what, attribute="psi_vals"))
+        for a in ("startInd", "endInd", "extend_lower", "extend_upper"):
+            if getattr(c, a) != getattr(src, a):
+                bad.append(dict(method=what, attribute=a, source=getattr(src, a), copy=getattr(c, a)))
+        if not (len(c) == len(src) and all(p.R == q.R and p.Z == q.Z for p, q in zip(c, src))):
+            bad.append(dict(method=what, attribute="points"))
+        for a in ("xPointsAtStart", "xPointsAtEnd", "connections", "psi_vals", "wallSurfaceAtStart"):
+            if getattr(c, a) is getattr(r, a):
+                bad.append(dict(method=what, attribute=a, problem="shared with the original (not a copy)"))
+        if what == "copy" and c.points is r.points:
+            bad.append(dict(method=what, attribute="points", problem="shared with the original"))
+    S.static_vc("copy", "hypnotoad.core.equilibrium:EquilibriumRegion.copy", "copy() and newRegionFromPsiContour() carry every structural attribute, take positions / indices from the right source and share no mutable container with the original", not bad, detail=repr(bad[:3]), kind="native", model=bad[0] if bad else None)
+
+
 def regrid_wiring(S):
     """The real MeshRegion.distributePointsNonorthogonal on recorder contours (exact): which
     spacing function each contour is regridded with, with which surface vectors, and that the
@@ -205,6 +256,8 @@ def regrid_wiring(S):
 
 
 def build(S):
+    copy_faithful(S)
+    S.under_contract("hypnotoad.core.equilibrium:EquilibriumRegion.copy", "hypnotoad.core.equilibrium:EquilibriumRegion.newRegionFromPsiContour")
     regrid_wiring(S)
     orchestration(S)
     S.under_contract("hypnotoad.core.mesh:Mesh.calculateRZ")
